@@ -315,12 +315,13 @@ Mutate(tx, m, S, C, skf(_)) ==
   LET t1 == MutateHeader(tx, m, S, C)
       o1 == [i \in DOMAIN MutateOuts(tx.outs, m) |-> [MutateOuts(tx.outs, m)[i] EXCEPT !.sk = skf(MutateOuts(tx.outs, m)[i])]] IN
   [t1 EXCEPT !.outs = IF m.rs THEN SortOuts(o1) ELSE o1]
-\* did a logged transaction come out of `canon` by mutation m? (prefixes are the harness's)
-IsMutant(tx, canon, m, S, C) ==
-  LET t1 == MutateHeader(canon, m, S, C)
-      o1 == MutateOuts(canon.outs, m) IN
+\* did a logged transaction come out of `canon` by mutation m followed by mutation m2? (prefixes are
+\* the harness's)
+IsMutant(tx, canon, m, m2, S, C) ==
+  LET t1 == MutateHeader(MutateHeader(canon, m, S, C), m2, S, C)
+      o1 == MutateOuts(MutateOuts(canon.outs, m), m2) IN
   /\ tx.ver = t1.ver /\ tx.lt = t1.lt /\ tx.ins = t1.ins
-  /\ IF m.rs THEN SameBag(BVSeq(tx.outs), BVSeq(o1)) /\ Sorted(tx.outs)
+  /\ IF m.rs \/ m2.rs THEN SameBag(BVSeq(tx.outs), BVSeq(o1)) /\ Sorted(tx.outs)
      ELSE BVSeq(tx.outs) = BVSeq(o1)
 
 (***************************************************************************)
